@@ -1,8 +1,8 @@
 (** C20 -- the data handling of grid_archive_heatmap as harness/py2v_gridviz.py reads it from the CURRENT source
     (Generated/GridVizGen.v, rewritten on every run) exhibits exactly the facts Model/Viz.v renders; the lemma below spells out the
     central one (row = y, column = x) on the model. *)
-From Coq Require Import List Arith QArith.
-From PV Require Import Base.ListUtil Base.MixedRadixViz Model.Store Model.Viz Model.GridVizFacts Generated.GridVizGen.
+From Coq Require Import List Arith QArith Lia.
+From PV Require Import Base.ListUtil Base.MixedRadixViz Model.Store Model.Viz Model.GridVizFacts Generated.GridVizGen Proofs.VizProofs.
 Import ListNotations.
 
 Theorem gen_gridviz_facts_are_model : gen_gridviz_facts = model_gridviz_facts.
@@ -15,4 +15,19 @@ Example model_row_is_y_column_is_x :
   transpose None 3 (grid2d_colors 3 2 [0; 3; 4]%nat [1; 7; 5]%Q) = [[Some 1%Q; None]; [None; Some 7%Q]; [Some 5%Q; None]].
 Proof. split; vm_compute; reflexivity. Qed.
 
+(** ... and for EVERY grid and every listing of distinct in-range cells: the colour at row y, column x of the matrix handed to
+    pcolormesh is the objective of the elite whose flat index is x * dy + y (grid index (x, y)), and blank iff no elite is there *)
+Theorem model_row_is_y_column_is_x_all : forall (dx dy : nat) (idxs : list nat) (objs : list Q) (x y : nat),
+  length idxs = length objs -> NoDup idxs -> (forall i, In i idxs -> (i < dx * dy)%nat) ->
+  (x < dx)%nat -> (y < dy)%nat ->
+  let c := nth x (nth y (grid2d_colors dx dy idxs objs) []) None in
+  (forall o, c = Some o <-> In ((x * dy + y)%nat, o) (combine idxs objs)) /\
+  (c = None <-> ~ In (x * dy + y)%nat idxs).
+Proof.
+  intros dx dy idxs objs x y Hl Hnd Hr Hx Hy.
+  assert (E : ravel [dx; dy] [x; y] = (x * dy + y)%nat) by (unfold ravel, prod; simpl; lia).
+  rewrite <- E. exact (@grid2d_cell dx dy idxs objs x y Hl Hnd Hr Hx Hy).
+Qed.
+
 Print Assumptions gen_gridviz_facts_are_model.
+Print Assumptions model_row_is_y_column_is_x_all.
